@@ -16,7 +16,7 @@ RULE = ("G1 with-programs (all four function kinds) and G2 await/yield-from chai
         "extractions of the unchanged target compare equal; (c) retention - after one warm-up extraction in the same state, "
         "sys.getrefcount of the managers, the target, its frame and the bound methods on its value stack is unchanged by further "
         "extract-and-drop rounds, no object defined in a stackscope module refers to a manager, and the target is collectable "
-        "(weakref dies) after the run; (c2) on 3.11+, for a running frame that is inside a C-level call (every other probe goes through a C callable), the raw inspect_frame snapshot reads no more value-stack slots than the depth of the exception-table entry covering f_lasti as parsed by the standard library's dis (0 when none); (d) the worker process survives (a death is reported with the case). Also replays the "
+        "(weakref dies) after the run, also after the trickery analysis of the target's frame was made to fail (faults injected at up to 12 points inside it; the library then warns and falls back); (c2) on 3.11+, for a running frame that is inside a C-level call (every other probe goes through a C callable), the raw inspect_frame snapshot reads no more value-stack slots than the depth of the exception-table entry covering f_lasti as parsed by the standard library's dis (0 when none); (d) the worker process survives (a death is reported with the case). Also replays the "
         "saved F9 crash history. Non-trivial: a program with >= 2 extraction points at which managers were active and a later "
         "resumption; distinct = distinct (IR, points, mode).")
 ASSUMPTIONS = [
@@ -29,11 +29,14 @@ ASSUMPTIONS = [
 @st.composite
 def twin_cases(draw):
     prog = draw(withprog.programs())
-    picks = draw(st.lists(st.integers(0, 59), min_size=0, max_size=12, unique=True))
+    # most programs finish within a handful of steps: two thirds of the picks come from the first eight
+    picks = draw(st.lists(st.one_of(st.integers(0, 7), st.integers(0, 7), st.integers(0, 59)), min_size=0, max_size=12,
+                          unique=True))
     ppicks = draw(st.lists(st.integers(1, 40), min_size=0, max_size=10, unique=True))
     points = [["s", i] for i in sorted(picks)] + [["p", j] for j in sorted(ppicks)]
     return {"prog": prog, "points": points, "repeat": draw(st.sampled_from([1, 1, 2, 3])),
-            "trickery": draw(st.sampled_from([True, True, False]))}
+            "trickery": draw(st.sampled_from([True, True, False])),
+            "fail_trickery": draw(st.sampled_from([0, 0, 1, 2, 5, 11]))}
 
 
 @st.composite
@@ -76,6 +79,8 @@ def shard(arg):
         def twin(c):
             cls = ["twin", "mode.trickery" if c["trickery"] else "mode.referents", "repeat.%d" % c["repeat"],
                    "kind." + c["prog"]["kind"]]
+            if c["trickery"] and c.get("fail_trickery"):
+                cls.append("with_injected_trickery_failures")
             return check(ws, interps, dict(c, op="pure.twin"), c, out, cls)
         fail = hyp_search(twin_cases(), twin, seed=arg["seed"], max_examples=arg["n"], shrink=arg["shrink"])
         if fail:
